@@ -1,0 +1,278 @@
+//go:build verif
+
+// Contracts of con-c04: property C04 (reads reflect exactly the committed log; narrow, sequential part).
+// Notes: /verif/notes/con-c04.md; unit list: /verif/props/parts/con-c04.json.
+// verifAssume / verifAssert live in zz_verif_contracts.go.
+package store
+
+import "encoding/binary"
+
+// ---------------------------------------------------------------------------------------------------------
+// 1. indexed value codec: serializeIndexableEntry / (*ImmuStore).valueRefFrom
+//
+// layout: vLen(4) vOff(8) hVal(32) txmdLen(2) txmd kvmdLen(2) kvmd; the short form (44 bytes, indexes created
+// before metadata was added) is accepted by the decoder as well.
+
+// the *valueRef behind a ValueRef (nil for foreign implementations)
+func spec_vr(v ValueRef) *valueRef {
+	r, _ := v.(*valueRef)
+	return r
+}
+
+// The byte layout is proved end to end by the harnesses below (the encoder is inlined there: with the concrete
+// 327-byte array every query is under 2 s, whereas layout postconditions over a symbolic buffer cost 10-20 s each).
+// requires: facts of the two call sites in (*indexer).indexSince: b is a local array of the maximal size, txmd comes
+// from (*TxMetadata).Bytes (<= maxTxMetadataLen, c15_len) and kvmd from (*KVMetadata).Bytes (<= maxKVMetadataLen).
+//@ func serializeIndexableEntry
+//@   requires e != nil
+//@   requires len(txmd) <= maxTxMetadataLen && len(kvmd) <= maxKVMetadataLen
+//@   requires len(b) >= 48 + len(txmd) + len(kvmd)
+//@   requires !sameobj(b, e) && !sameobj(b, txmd) && !sameobj(b, kvmd)
+//@   ensures size: r0 == 48 + len(txmd) + len(kvmd)
+//@   assigns b
+//@   inline
+
+// valueRefFrom is total on arbitrary bytes (no requires), rejects short input and trailing bytes, and hands the
+// decoded fields on unchanged.
+//@ func (*ImmuStore).valueRefFrom
+//@   ensures nonnil: r1 == nil ==> spec_vr(r0) != nil
+//@   ensures ids: r1 == nil ==> spec_vr(r0).tx == tx && spec_vr(r0).hc == hc && spec_vr(r0).st == st
+//@   ensures short: len(indexedVal) < 44 ==> r1 == ErrCorruptedIndex
+//@   ensures exact_short: r1 == nil ==> len(indexedVal) == 44 || len(indexedVal) >= 48
+//@   ensures exact_txmd: r1 == nil && len(indexedVal) > 44 ==> int(be16(indexedVal[44:])) <= maxTxMetadataLen && len(indexedVal) >= 48 + int(be16(indexedVal[44:]))
+//@   ensures exact_kvmd0: r1 == nil && len(indexedVal) > 44 && be16(indexedVal[44:]) == 0 ==> len(indexedVal) == 48 + int(be16(indexedVal[46:]))
+//@   ensures exact_kvmdN: r1 == nil && len(indexedVal) > 44 && old(be16(indexedVal[44:])) > 0 ==> len(indexedVal) == 48 + old(int(be16(indexedVal[44:])) + int(be16(indexedVal[46+int(be16(indexedVal[44:])):])))
+//@   ensures vlen: r1 == nil ==> spec_vr(r0).valLen == be32(indexedVal[0:])
+//@   ensures voff: r1 == nil ==> spec_vr(r0).vOff == int64(be64(indexedVal[4:]))
+//@   ensures hval_w0: r1 == nil ==> be64(spec_vr(r0).hVal[0:]) == be64(indexedVal[12:])
+//@   ensures hval_w1: r1 == nil ==> be64(spec_vr(r0).hVal[8:]) == be64(indexedVal[20:])
+//@   ensures hval_w2: r1 == nil ==> be64(spec_vr(r0).hVal[16:]) == be64(indexedVal[28:])
+//@   ensures hval_w3: r1 == nil ==> be64(spec_vr(r0).hVal[24:]) == be64(indexedVal[36:])
+//@   ensures nomd: r1 == nil && len(indexedVal) == 44 ==> spec_vr(r0).txmd == nil && spec_vr(r0).kvmd == nil
+//@   ensures txmd: r1 == nil && len(indexedVal) > 44 ==> (spec_vr(r0).txmd != nil) == (be16(indexedVal[44:]) > 0)
+//@   ensures kvmd: r1 == nil && len(indexedVal) > 44 ==> (spec_vr(r0).kvmd != nil) == (be16(indexedVal[46+int(be16(indexedVal[44:])):]) > 0)
+//@   ensures fresh: r1 == nil ==> fresh(spec_vr(r0))
+//@   assigns nothing
+
+// round trip: what the indexer serialises is what the readers get back (vLen, vOff, hVal, presence of both metadata
+// records). e.vLen is an int written as uint32: the store bounds value lengths by MaxValueLen <= 2^32-1 (not assumed
+// here: the comparison is made modulo 2^32, which is what the format can carry).
+func verif_indexed_value_roundtrip(st *ImmuStore, tx, hc uint64, e *TxEntry, txmd, kvmd []byte) {
+	verifAssume(e != nil && len(txmd) <= maxTxMetadataLen && len(kvmd) <= maxKVMetadataLen)
+	var b [lszSize + offsetSize + 32 + sszSize + maxTxMetadataLen + sszSize + maxKVMetadataLen]byte
+	n := serializeIndexableEntry(b[:], txmd, e, kvmd)
+	v, err := st.valueRefFrom(tx, hc, b[:n])
+	if err != nil {
+		return // the metadata decoders may reject arbitrary txmd / kvmd bytes
+	}
+	r := spec_vr(v)
+	verifAssert("vlen", r.valLen == uint32(e.vLen))
+	verifAssert("voff", r.vOff == e.vOff)
+	verifAssert("hval", binary.BigEndian.Uint64(r.hVal[0:]) == binary.BigEndian.Uint64(e.hVal[0:]) &&
+		binary.BigEndian.Uint64(r.hVal[8:]) == binary.BigEndian.Uint64(e.hVal[8:]) &&
+		binary.BigEndian.Uint64(r.hVal[16:]) == binary.BigEndian.Uint64(e.hVal[16:]) &&
+		binary.BigEndian.Uint64(r.hVal[24:]) == binary.BigEndian.Uint64(e.hVal[24:]))
+	verifAssert("txmd_presence", (r.txmd != nil) == (len(txmd) > 0))
+	verifAssert("kvmd_presence", (r.kvmd != nil) == (len(kvmd) > 0))
+	verifAssert("ids", r.tx == tx && r.hc == hc)
+}
+
+// trailing bytes are rejected: one more byte after a well-formed long-form value
+func verif_indexed_value_trailing(st *ImmuStore, tx, hc uint64, e *TxEntry, txmd, kvmd []byte) {
+	verifAssume(e != nil && len(txmd) <= maxTxMetadataLen && len(kvmd) <= maxKVMetadataLen)
+	var b [lszSize + offsetSize + 32 + sszSize + maxTxMetadataLen + sszSize + maxKVMetadataLen + 1]byte
+	n := serializeIndexableEntry(b[:], txmd, e, kvmd)
+	_, err := st.valueRefFrom(tx, hc, b[:n+1])
+	verifAssert("trailing_rejected", err != nil)
+}
+
+// ---------------------------------------------------------------------------------------------------------
+// 2. History: revision numbers
+//
+// Element k of the result has revision offset+1+k in ascending order and hCount-offset-k in descending order
+// (consecutive, in the order the tree hands the versions out; that this is commit order is C10), and carries the
+// transaction id of the k-th timed value.
+
+// ASSUMED (maps are opaque to the engine: `range s.indexers` yields arbitrary values): s.indexers never maps to nil
+// (InitIndexing stores the result of a successful newIndexer only); the lookup writes nothing but the lock counter.
+//@ func (*ImmuStore).getIndexerFor
+//@   ensures nonnil: r1 == nil ==> r0 != nil
+//@   assigns internal
+
+// ASSUMED frames: the tbtree read paths behind these wrappers write only tree-internal state (cache, locks).
+//@ func (*indexer).History
+//@   assigns internal
+
+//@ func (*indexer).Get
+//@   assigns internal
+
+//@ func (*indexer).GetWithPrefix
+//@   assigns internal
+
+// Engine limitation (see notes): the payload of an interface value can only be reached through a spec function
+// (type assertion), and spec functions are uninterpreted under a binder; a quantified statement over the elements
+// of a []ValueRef therefore cannot be connected to valueRefFrom's postcondition. What is stated instead:
+//   cur:  at the head of iteration k the running revision is the one the property demands for element k;
+//   last: the element stored by the previous iteration is a *valueRef with exactly that revision and the Ts of
+//         its timed value;
+// together with the (unquantified, hence unstated) frame fact that iteration k writes valRefs[k] only and that
+// valueRefFrom `assigns nothing`, this is the demanded "element k has revision offset+1+k / hCount-offset-k".
+//@ func (*ImmuStore).History
+//@   ensures len: err == nil ==> len(valRefs) == len(timedValues)
+//@   ensures last_asc: err == nil && !descOrder && len(valRefs) > 0 ==> spec_vr(valRefs[len(valRefs)-1]) != nil
+//@     && spec_vr(valRefs[len(valRefs)-1]).hc == offset + 1 + uint64(len(valRefs)-1)
+//@   ensures last_desc: err == nil && descOrder && len(valRefs) > 0 ==> spec_vr(valRefs[len(valRefs)-1]) != nil
+//@     && spec_vr(valRefs[len(valRefs)-1]).hc == hCount - offset - uint64(len(valRefs)-1)
+//@   loop 1 invariant len: len(valRefs) == len(timedValues)
+//@   loop 1 invariant cur: (!descOrder ==> rev == offset + 1 + uint64(rangeindex+1)) && (descOrder ==> rev == hCount - offset - uint64(rangeindex+1))
+//@   loop 1 invariant last: rangeindex >= 0 ==> spec_vr(valRefs[rangeindex]) != nil
+//@     && spec_vr(valRefs[rangeindex]).tx == timedValues[rangeindex].Ts
+//@     && (!descOrder ==> spec_vr(valRefs[rangeindex]).hc == offset + 1 + uint64(rangeindex))
+//@     && (descOrder ==> spec_vr(valRefs[rangeindex]).hc == hCount - offset - uint64(rangeindex))
+
+// (*Snapshot).History: same demand. A snapshot with a value-reference interceptor (OngoingTx) hands out wrapped
+// references whose revision is the wrapper's business: the statement is made for plain snapshots.
+// (This failed on the original code, which passed `hCount-uint64(i)` whatever offset and descOrder were: genuine defect,
+// natively confirmed and repaired by "fix: Snapshot.History must number revisions by offset and order".)
+//@ func (*Snapshot).History
+//@   requires s.snap != nil && s.st != nil
+//@   ensures len: err == nil ==> len(valRefs) == len(timedValues)
+//@   ensures last_asc: err == nil && old(s.refInterceptor) == nil && !descOrder && len(valRefs) > 0 ==> spec_vr(valRefs[len(valRefs)-1]) != nil
+//@     && spec_vr(valRefs[len(valRefs)-1]).hc == offset + 1 + uint64(len(valRefs)-1)
+//@   ensures last_desc: err == nil && old(s.refInterceptor) == nil && descOrder && len(valRefs) > 0 ==> spec_vr(valRefs[len(valRefs)-1]) != nil
+//@     && spec_vr(valRefs[len(valRefs)-1]).hc == hCount - offset - uint64(len(valRefs)-1)
+//@   loop 1 invariant len: len(valRefs) == len(timedValues)
+//@   loop 1 invariant plain: old(s.refInterceptor) == nil ==> s.refInterceptor == nil
+//@   loop 1 invariant cur: (!descOrder ==> rev == offset + 1 + uint64(rangeindex+1)) && (descOrder ==> rev == hCount - offset - uint64(rangeindex+1))
+//@   loop 1 invariant last: old(s.refInterceptor) == nil && rangeindex >= 0 ==> spec_vr(valRefs[rangeindex]) != nil
+//@     && spec_vr(valRefs[rangeindex]).tx == timedValues[rangeindex].Ts
+//@     && (!descOrder ==> spec_vr(valRefs[rangeindex]).hc == offset + 1 + uint64(rangeindex))
+//@     && (descOrder ==> spec_vr(valRefs[rangeindex]).hc == hCount - offset - uint64(rangeindex))
+
+// ---------------------------------------------------------------------------------------------------------
+// 3. filters
+//
+// A filter rejects an entry by returning a non-nil error. The two stock filters (package variables initialised with
+// closures: init$1 = IgnoreDeleted, init$2 = IgnoreExpired) are defined by the metadata predicates.
+
+//@ iface ValueRef.KVMetadata
+//@   assigns nothing
+
+// requires valRef != nil: every caller in the module passes the result of valueRefFrom (`nonnil`) or an ongoing
+// value reference. ASSUMED read frame (the attribute map is opaque to the engine): the predicates are functions of the metadata object.
+//@ func (*KVMetadata).Deleted
+//@   pure
+//@   reads md
+
+//@ func init$1
+//@   requires valRef != nil
+//@   ensures def: (r0 != nil) == (md != nil && md.Deleted())
+//@   ensures err: r0 != nil ==> r0 == ErrKeyNotFound
+//@   assigns nothing
+
+//@ func init$2
+//@   requires valRef != nil
+//@   ensures err: r0 != nil ==> r0 == ErrExpiredEntry
+//@   ensures nomd: md == nil ==> r0 == nil
+//@   assigns nothing
+
+// Lookups through filters: the result is an entry XOR an error; at the head of every iteration all filters applied
+// so far returned nil on the entry (`passed`: err is overwritten with each filter's verdict and any non-nil verdict
+// returns immediately with a nil entry); the loop ranges over all supplied filters without break/continue, and a nil
+// filter is an error, so the entry is returned only if EVERY supplied filter returned nil on it. (That each filter is
+// really invoked is this loop structure; a call counter cannot be attached to a dynamic call.)
+//@ func (*ImmuStore).GetWithFilters
+//@   ensures xor: (valRef != nil) == (err == nil)
+//@   loop 1 invariant passed: err == nil && valRef != nil
+
+//@ func (*ImmuStore).GetWithPrefixAndFilters
+//@   ensures xor: (valRef != nil) == (err == nil)
+//@   ensures nokey: err != nil ==> key == nil
+//@   loop 1 invariant passed: err == nil && valRef != nil
+
+// ---------------------------------------------------------------------------------------------------------
+// 4. (*indexer).indexSince: preparation of the bulk
+//
+// Additive clause on C09's ASSUMED contract of readTx (zz_verif_contracts_c09.go, `c04_entries`): the reusable tx
+// keeps its entry slice and the parsed entry count is within it ((*Tx).readFrom passes len(tx.entries) to readHeader,
+// whose verified `count` clause bounds NEntries).
+
+// ASSUMED frame: the scratch buffer idx._val, the value-log cache and the user-supplied mapper are callee-internal.
+// vLen is the value length of a parsed tx entry (readEntry: int(uint32)), hence non-negative.
+// `identity` is what the body does without a mapper. A former clause `owned` (the result does not alias the argument)
+// stated what indexSince needed from mapKey while it stored the result in the bulk; it failed (genuine defect: with
+// MaxBulkSize > 1 all but the last key of a bulk were lost). The repair (fix: indexer must copy the target key into its
+// bulk slot) copies at the two store sites of indexSince instead, so mapKey may hand back its argument and the clause
+// was removed as over-demanding; indexSince itself is outside the engine's reach (see /verif/notes/con-c04.md).
+//@ func (*indexer).mapKey
+//@   requires idx.store != nil && 0 <= vLen && vLen <= 1<<32
+//@   ensures identity: mapper == nil ==> err == nil && eqBytes(mappedKey, key)
+//@   assigns internal
+
+// Ghost call counters: plain package variables (no pointer indirection, so no existence assumption is needed).
+var (
+	verif_c04_waits   int // calls of (*indexer).WaitForIndexingUpto
+	verif_c04_waitsOK int // those that returned nil
+)
+
+// ASSUMED (ghost bookkeeping + frame): each call is counted, successful ones twice.
+//@ func (*indexer).WaitForIndexingUpto
+//@   ensures tick: verif_c04_waits == old(verif_c04_waits) + 1
+//@   ensures tick_ok: r0 == nil ==> verif_c04_waitsOK == old(verif_c04_waitsOK) + 1
+//@   ensures tick_err: r0 != nil ==> verif_c04_waitsOK == old(verif_c04_waitsOK)
+//@   assigns internal, verif_c04_waits, verif_c04_waitsOK
+
+// ASSUMED: on success both results are non-nil and freshly allocated (ReadTxEntry allocates the entry, its key buffer
+// and the header).
+//@ func (*ImmuStore).ReadTxEntry
+//@   ensures nonnil: r2 == nil ==> r0 != nil && r1 != nil
+//@   assigns internal
+
+// ASSUMED (attribute map and bytes.Buffer are not modelled): at most maxKVMetadataLen bytes (1 + 1+8 + 1), no
+// caller-visible write.
+//@ func (*KVMetadata).Bytes
+//@   ensures c04_len: len(r0) <= maxKVMetadataLen
+//@   assigns nothing
+
+// ASSUMED (maps not modelled): constructor result non-nil; AsDeleted writes its receiver only.
+//@ func NewKVMetadata
+//@   ensures nonnil: r0 != nil && fresh(r0)
+//@   assigns nothing
+
+//@ func (*KVMetadata).AsDeleted
+//@   assigns md
+
+// (*indexer).indexSince itself is NOT a checked unit (see notes, limitation E1/E2): the block below records the
+// contract the property demands; with it the engine generates 195 obligations of which 39 fail, none for a reason
+// that says anything about immudb:
+//   * context.WithTimeout / ctx.Err() (external interface) / the cancel closures (dynamic calls) havoc the whole heap
+//     before and inside loop 1, so no heap fact (not even the requires) survives to the loop header;
+//   * quantified invariants over idx._kvs make every query of the function time out; the last-element forms below
+//     time out on the InjectiveMapping path.
+// The two defects of this function are therefore anchored elsewhere: key ownership in post:(*indexer).mapKey:owned
+// (sat, above) and natively (store_replay3), the bulk capacity natively only (notes: D2).
+// Representation facts of an initialised indexer (newIndexer + init): idx.tx = NewTx(..): every entry non-nil and all
+// entry keys carved out of ONE buffer; idx._kvs: maxTxEntries*maxBulkSize non-nil slots.
+// T tag: the entry added last while tx txID+i is processed carries T = txID+i.
+// Ownership (known defect): the K stored last does not designate the key buffer of the reusable idx.tx, which the
+// readTx of the next iteration overwrites.
+// Capacity (new defect): the bulk has one slot per source entry, but with InjectiveMapping one source entry yields up
+// to two bulk entries: `one_slot` is the invariant the allocation relies on.
+//@ func (*indexer).indexSince
+//@   requires idx.store != nil && idx.tx != nil && idx.spec != nil && idx.index != nil
+//@   requires idx.store.memSemaphore != nil && idx.store.commitWHub != nil
+//@   requires forall(j, 0, len(idx._kvs), idx._kvs[j] != nil)
+//@   requires forall(m, 0, len(idx.tx.entries), idx.tx.entries[m] != nil)
+//@   loop 1 invariant keep: idx.store == old(idx.store) && idx.tx == old(idx.tx) && idx.spec == old(idx.spec) && idx.index == old(idx.index)
+//@     && idx._kvs == old(idx._kvs) && idx.tx.entries == old(idx.tx.entries)
+//@     && idx.store != nil && idx.tx != nil && idx.spec != nil && idx.index != nil
+//@     && idx.store.memSemaphore != nil && idx.store.commitWHub != nil
+//@   loop 1 invariant nonnil: forall(j, 0, len(idx._kvs), idx._kvs[j] != nil) && forall(m, 0, len(idx.tx.entries), idx.tx.entries[m] != nil)
+//@   loop 1 invariant cnt: 0 <= indexableEntries && 0 <= bulkSize && bulkSize <= i && 0 <= acquiredMem
+//@   loop 2 invariant keep: idx.store == old(idx.store) && idx.tx == old(idx.tx) && idx.spec == old(idx.spec) && idx.index == old(idx.index)
+//@     && idx._kvs == old(idx._kvs) && idx.tx.entries == old(idx.tx.entries)
+//@   loop 2 invariant cnt: 0 <= txIndexedEntries && txIndexedEntries <= indexableEntries
+//@   loop 2 invariant one_slot: txIndexedEntries <= rangeindex + 1
+//@   loop 2 invariant ttag_last: txIndexedEntries > 0 && indexableEntries <= len(idx._kvs) ==> idx._kvs[indexableEntries-1].T == txID + uint64(i)
+//@   loop 2 invariant owned_last: txIndexedEntries > 0 && indexableEntries <= len(idx._kvs) && len(idx.tx.entries) > 0
+//@     ==> !sameobj(idx._kvs[indexableEntries-1].K, idx.tx.entries[0].k)
